@@ -47,15 +47,20 @@ Definition finals_of (p : pc) : nat :=
 
 Definition is_returned (p : pc) : bool := match p with PReturned _ => true | _ => false end.
 
+(* a Redraw call has been invoked and has not yet sent its token *)
+Definition in_flight (s : st) : Prop := pendf s <> 0 \/ pendn s <> 0 \/ mid s <> None.
+
 Definition Inv (m : mon) (s : st) : Prop :=
   m_ok m = true /\
   m_acc m = inq s /\
   m_cb m = cb_of (pcs s) /\
   (m_uns m = true ->
-     returning (pcs s) <> None \/ tok s = true \/ before_redraw (pcs s) = true) /\
+     returning (pcs s) <> None \/ tok s = true \/ before_redraw (pcs s) = true \/
+     in_flight s) /\
   (m_unsf m = true ->
      returning (pcs s) <> None \/ pcs s = PExtracted true \/
-     (full s = true /\ (tok s = true \/ before_extract (pcs s) = true))) /\
+     (full s = true /\ (tok s = true \/ before_extract (pcs s) = true \/ mid s <> None)) \/
+     pendf s <> 0) /\
   m_first m = match returning (pcs s) with Some r => Some r | None => ret s end /\
   m_finals m = finals_of (pcs s) /\
   m_done m = is_returned (pcs s) /\
@@ -86,25 +91,39 @@ Local Ltac fin :=
 Lemma inv_step : forall m s l s', Inv m s -> step s l = Some s' -> Inv (mnext m l) s'.
 Proof.
   intros m s l s' (Hok & Hacc & Hcb & Hu & Hf & H1 & Hfin & Hdn & Hlen) Hs.
-  destruct s as [q t f r p]; destruct m as [ok acc cb uns unsf fst fn dn].
+  destruct s as [q t f r p pf pn md]; destruct m as [ok acc cb uns unsf fst fn dn].
+  unfold in_flight in *.
   simpl in Hok, Hacc, Hcb, Hu, Hf, H1, Hfin, Hdn, Hlen. subst ok acc cb fn dn.
-  destruct l as [o|tt]; [destruct o|destruct tt]; destruct p; simpl in Hs;
+  unfold step, step_ord in Hs.
+  Time destruct l as [o|tt]; [destruct o|destruct tt]; destruct p; simpl in Hs;
     try discriminate Hs;
     break_ifs Hs; try discriminate Hs; inversion Hs; subst; clear Hs; fin;
-    unfold Inv; simpl in *;
+    unfold Inv, in_flight; simpl in *;
     (repeat split; simpl;
      try reflexivity; try assumption;
      try (rewrite ?N.eqb_refl; reflexivity);
      try (rewrite app_length; simpl; rewrite Nat.add_1_r; assumption);
      try (intros HH; first [ discriminate HH | idtac ])).
-  all: try (simpl in *; lia).
-  all: try solve [ subst; simpl in *; auto ].
-  all: try solve [ simpl in *; intuition (try discriminate; try congruence; auto) ].
-  all: try solve [ destruct uns; destruct unsf; simpl in *; intuition (try discriminate; try congruence; auto) ].
-  all: try solve [ repeat match goal with b : bool |- _ => destruct b end;
+  Time all: try (simpl in *; lia).
+  Time all: try solve [ subst; simpl in *; auto ].
+  Time all: try solve [ simpl in *; intuition (try discriminate; try congruence; auto) ].
+  Time all: try solve [ destruct uns; destruct unsf; simpl in *; intuition (try discriminate; try congruence; auto) ].
+  Time all: try solve [ simpl in *; intuition (try discriminate; try congruence; try lia) ].
+  Time all: try solve [ destruct uns; destruct unsf; simpl in *;
+                   intuition (try discriminate; try congruence; try lia) ].
+  Time all: try solve [ destruct uns; destruct unsf; simpl in *;
+                   try match goal with b : bool |- _ => destruct b end; simpl in *;
+                   intuition (try discriminate; try congruence; try lia) ].
+  Time all: try solve [ repeat match goal with b : bool |- _ => destruct b end;
                    try match goal with q : list N |- _ => destruct q end;
                    try match goal with r : option N |- _ => destruct r end;
-                   simpl in *; intuition (try discriminate; try congruence) ].
+                   try match goal with r : option bool |- _ => destruct r end;
+                   simpl in *; intuition (try discriminate; try congruence; try lia) ].
+  all: try solve [
+    match goal with H : quiescent _ = true |- _ => unfold quiescent, loop_idle in H; simpl in H end;
+    destruct q; destruct t; destruct r; destruct pf; destruct pn; destruct md; simpl in *;
+    try discriminate; destruct uns; destruct unsf; simpl; try reflexivity; exfalso;
+    intuition (try discriminate; try congruence) ].
 Qed.
 
 (* the invariant holds along every trace of the model *)
@@ -197,18 +216,28 @@ Proof.
 Qed.
 
 (* ---------- progress: a loop that has not returned is blocked only when it is
-   at its select with nothing pending ---------- *)
+   at its select with nothing pending, or (at extractRedrawFull) while a Redraw
+   call holds the mutex between its two halves -- and that call can always
+   finish ---------- *)
+Lemma redraw_call_progress : forall s f, mid s = Some f ->
+  exists s', step s (Tau TRSecond) = Some s' /\ mid s' = None.
+Proof.
+  intros [q t fl r p pf pn md] f H; simpl in H; subst md. eexists; split; reflexivity.
+Qed.
+
 Definition loop_label (l : label) : bool :=
   match l with
-  | Obs (EInput _) | Obs (ERedraw _) | Obs (EReturn _) | Obs OQuiesce => false
+  | Obs (EInput _) | Obs (ERedraw _) | Obs (ERedrawCall _) | Obs (EReturn _) | Obs OQuiesce
+  | Tau (TRFirst _) | Tau TRSecond => false
   | _ => true
   end.
 
 Lemma loop_progress : forall s,
-  is_returned (pcs s) = false -> quiescent s = false ->
+  is_returned (pcs s) = false -> loop_idle s = false -> mid s = None ->
   exists l s', loop_label l = true /\ step s l = Some s'.
 Proof.
-  intros [q t f r p] Hnr Hnq; destruct p; simpl in *; try discriminate.
+  intros [q t f r p pf pn md] Hnr Hnq Hmd; simpl in Hmd; subst md;
+    destruct p; unfold loop_idle in Hnq; simpl in *; try discriminate.
   - exists (Tau TExtract); eexists; split; reflexivity.
   - exists (Obs (CRedrawStart f0)); eexists; split; [reflexivity|]; simpl.
     rewrite Bool.eqb_reflx; reflexivity.
